@@ -247,7 +247,7 @@ Proof.
 Qed.
 
 Lemma scalar_step s f g isint data :
-  f <> F_INDEX -> scalar_ok s g isint data = true ->
+  f <> F_INDEX -> (g = f -> scalar_ok s g isint data = true) ->
   rd_scalar (st_f (fst (step s (OScalar g isint data)))) f
   = if g =? f then upd (w_mode (st_w s)) (rd_scalar (st_f s) f) data else rd_scalar (st_f s) f.
 Proof.
@@ -269,6 +269,7 @@ Proof.
     + rewrite alookup_aset. destruct (g =? f) eqn:Egf.
       * assert (g = f) by lia; subst g. rewrite Z.eqb_refl.
         rewrite write_scalar_spec. cbn [sds_vals].
+        specialize (Hok eq_refl). rewrite ?Eg in Hok.
         fold (sds_dt (alookup f sc) (forced_dtype f) isint) in Hok.
         rewrite map_cast_fits by exact Hok.
         rewrite Hsc, Z.eqb_refl, andb_true_r.
@@ -282,22 +283,26 @@ Proof.
 Qed.
 
 Theorem scalar_history f : f <> F_INDEX ->
-  forall ops s, hist_ok s ops = true ->
+  forall ops s, hist_ok_scalar f s ops = true ->
   rd_scalar (st_f (run s ops)) f
   = spec_scalar f (w_mode (st_w s)) (rd_scalar (st_f s) f) ops.
 Proof.
   intros Hf. induction ops as [|o r IH]; intros s Hok; [reflexivity|].
-  rewrite run_cons. cbn [hist_ok] in Hok. apply andb_prop in Hok as [Ho Hr].
+  rewrite run_cons. unfold hist_ok_scalar in *. cbn [hist_ok_by] in Hok.
+  apply andb_prop in Hok as [Ho Hr].
   rewrite IH by exact Hr. rewrite mode_step.
   pose proof (scal_frame s o) as Hfr.
   destruct o; cbn [spec_scalar]; try (rewrite !rd_scalar_alt, Hfr; reflexivity).
   - (* OOpen *) cbn [step fst st_f]. destruct (mode =? 2); reflexivity.
-  - (* OScalar *) rewrite (scalar_step s f f0 isint data Hf Ho).
+  - (* OScalar *)
+    assert (Ho' : f0 = f -> scalar_ok s f0 isint data = true).
+    { intros ->. cbn [op_ok_scalar] in Ho. now rewrite Z.eqb_refl in Ho. }
+    rewrite (scalar_step s f f0 isint data Hf Ho').
     replace (f =? F_INDEX) with false by lia. rewrite andb_true_r.
     destruct (f0 =? f); reflexivity.
 Qed.
 
-Corollary scalar_history_init f ops : f <> F_INDEX -> hist_ok init ops = true ->
+Corollary scalar_history_init f ops : f <> F_INDEX -> hist_ok_scalar f init ops = true ->
   rd_scalar (st_f (run init ops)) f = spec_scalar f 0 [] ops.
 Proof. intros Hf Hok. exact (scalar_history f Hf ops init Hok). Qed.
 
@@ -461,7 +466,7 @@ Definition optPos (g : option (list (Z * nd))) : Prop :=
   match g with Some g => ChunksPos g | None => True end.
 
 Lemma fits_cast_nd t v : fits_nd t v = true -> cast_nd t v = v.
-Proof. destruct t; simpl; intros H; [reflexivity|reflexivity|lia]. Qed.
+Proof. destruct t; simpl; intros H; [reflexivity|lia|lia]. Qed.
 
 Lemma rows_fit_cast t rows : rows_fit t rows = true -> map (map (cast_nd t)) rows = rows.
 Proof.
@@ -474,7 +479,7 @@ Qed.
 Lemma trace_loop_spec csb shape ddt tr : forall data grp,
   optPos grp ->
   optPos (fst (trace_loop csb shape ddt data grp))
-  /\ (trace_ok csb shape ddt data grp = true ->
+  /\ (trace_ok tr csb shape ddt data grp = true ->
       grp_rows (fst (trace_loop csb shape ddt data grp)) tr
       = spec_trace_call tr (grp_rows grp tr) (effective data)).
 Proof.
@@ -493,7 +498,7 @@ Proof.
       split; [exact I1|]. intros Hok. apply andb_prop in Hok as [Hfit Hrest].
       rewrite (I2 Hrest). f_equal.
       cbn [grp_rows]. rewrite alookup_aset, (Z.eqb_sym tr t). destruct (t =? tr) eqn:E.
-      * assert (t = tr) by lia; subst t.
+      * assert (t = tr) by lia; subst t. try rewrite Z.eqb_refl in Hfit.
         rewrite write_nd_appends by (apply ChunksPos_lookup, HPg).
         rewrite (rows_fit_cast dt rows Hfit).
         rewrite Hg. cbn [grp_rows]. now destruct (alookup tr g).
@@ -550,7 +555,7 @@ Lemma store_trace_spec s shape ddt data tr :
   NdInv (st_f s) ->
   let f' := fst (store_trace (st_w s) (st_f s) shape ddt data) in
   optPos (f_trace f') /\ f_nd f' = f_nd (st_f s)
-  /\ (trace_ok (w_csb (st_w s)) shape ddt data (trace_grp0 s data) = true ->
+  /\ (trace_ok tr (w_csb (st_w s)) shape ddt data (trace_grp0 s data) = true ->
       grp_rows (f_trace f') tr
       = spec_trace_call tr
           (if (w_mode (st_w s) =? 1) && existsb (Z.eqb tr) (map fst data) then []
@@ -605,7 +610,7 @@ Proof.
 Qed.
 
 Lemma image_step s f g isbool shape ddt data :
-  NdInv (st_f s) -> image_ok s g isbool ddt data = true ->
+  NdInv (st_f s) -> (g = f -> image_ok s g isbool ddt data = true) ->
   rd_nd (st_f (fst (step s (OImage g isbool shape ddt data)))) f
   = if g =? f then upd (w_mode (st_w s)) (rd_nd (st_f s) f)
                        (if f =? F_MASK then as_bool data else data)
@@ -614,6 +619,15 @@ Proof.
   intros [HN _] Hok. cbn [step fst st_f set_file]. unfold store_image, upd, rd_nd.
   unfold image_ok in Hok.
   set (ndl := if w_mode (st_w s) =? 1 then adel g (f_nd (st_f s)) else f_nd (st_f s)) in *.
+  destruct (Z.eq_dec g f) as [Hgf|Hgf].
+  2:{ (* another feature: whatever is stored under g, f is untouched *)
+      replace (g =? f) with false by lia.
+      assert (Hl' : alookup f ndl = alookup f (f_nd (st_f s))).
+      { subst ndl. destruct (w_mode (st_w s) =? 1); [|reflexivity].
+        rewrite alookup_adel. now replace (f =? g) with false by lia. }
+      destruct (nonempty data); cbn [fst f_nd with_nd];
+        [rewrite alookup_aset; replace (f =? g) with false by lia|]; now rewrite Hl'. }
+  specialize (Hok Hgf).
   rewrite (rows_fit_cast _ _ Hok). unfold image_data.
   assert (HP : ChunksPos ndl).
   { subst ndl. destruct (w_mode (st_w s) =? 1); [now apply ChunksPos_adel|exact HN]. }
@@ -645,27 +659,33 @@ Proof.
     + now rewrite andb_false_r.
 Qed.
 
-Theorem nd_history f : forall ops s, NdInv (st_f s) -> hist_ok s ops = true ->
+Theorem nd_history f : forall ops s, NdInv (st_f s) -> hist_ok_nd f s ops = true ->
   rd_nd (st_f (run s ops)) f = spec_nd f (w_mode (st_w s)) (rd_nd (st_f s) f) ops.
 Proof.
   induction ops as [|o r IH]; intros s HI Hok; [reflexivity|].
-  cbn [hist_ok] in Hok. apply andb_prop in Hok as [Ho Hr].
+  unfold hist_ok_nd, hist_ok_trace in *. cbn [hist_ok_by] in Hok.
+  apply andb_prop in Hok as [Ho Hr].
   rewrite run_cons, IH by first [now apply NdInv_step | exact Hr]. rewrite mode_step.
   pose proof (nd_frame s o) as Hfr.
   destruct o; cbn [spec_nd]; try (unfold rd_nd; rewrite Hfr; reflexivity).
   - cbn [step fst st_f]. destruct (mode =? 2); reflexivity.
-  - rewrite (image_step s f f0 isbool shape ddt data HI Ho). destruct (f0 =? f); reflexivity.
+  - assert (Ho' : f0 = f -> image_ok s f0 isbool ddt data = true).
+    { intros ->. cbn [op_ok_nd] in Ho. now rewrite Z.eqb_refl in Ho. }
+    rewrite (image_step s f f0 isbool shape ddt data HI Ho'). destruct (f0 =? f); reflexivity.
   - change (step s (OArr f0 isbool shape dshape ddt flat))
       with (step s (OImage f0 isbool (arr_shape f0 shape dshape) ddt
                            (arr_events f0 shape dshape flat))).
-    rewrite (image_step s f f0 isbool _ ddt _ HI Ho). destruct (f0 =? f); reflexivity.
+    assert (Ho' : f0 = f -> image_ok s f0 isbool ddt (arr_events f0 shape dshape flat) = true).
+    { intros ->. cbn [op_ok_nd] in Ho. now rewrite Z.eqb_refl in Ho. }
+    rewrite (image_step s f f0 isbool _ ddt _ HI Ho'). destruct (f0 =? f); reflexivity.
 Qed.
 
-Theorem trace_history tr : forall ops s, NdInv (st_f s) -> hist_ok s ops = true ->
+Theorem trace_history tr : forall ops s, NdInv (st_f s) -> hist_ok_trace tr s ops = true ->
   rd_trace (st_f (run s ops)) tr = spec_trace tr (w_mode (st_w s)) (rd_trace (st_f s) tr) ops.
 Proof.
   induction ops as [|o r IH]; intros s HI Hok; [reflexivity|].
-  cbn [hist_ok] in Hok. apply andb_prop in Hok as [Ho Hr].
+  unfold hist_ok_nd, hist_ok_trace in *. cbn [hist_ok_by] in Hok.
+  apply andb_prop in Hok as [Ho Hr].
   rewrite run_cons, IH by first [now apply NdInv_step | exact Hr]. rewrite mode_step.
   pose proof (trace_frame s o) as Hfr.
   change rd_trace with (fun s tr => grp_rows (f_trace s) tr) in *. cbv beta.
@@ -836,14 +856,15 @@ Proof.
 Qed.
 
 Lemma log_step s name g lines :
-  log_ok s g lines = true ->
+  (g = name -> log_ok s g lines = true) ->
   rd_log (st_f (fst (step s (OLog g lines)))) name
   = if g =? name then upd (w_mode (st_w s)) (rd_log (st_f s) name) lines
     else rd_log (st_f s) name.
 Proof.
   intros Hok. cbn [step fst st_f]. unfold rd_log, upd. cbn [f_logs with_logs].
   rewrite alookup_aset, (Z.eqb_sym name g). destruct (g =? name) eqn:E; [|reflexivity].
-  assert (g = name) by lia; subst g. unfold write_text, log_ok in *.
+  assert (g = name) by lia; subst g. specialize (Hok eq_refl).
+  unfold write_text, log_ok in *.
   destruct (w_mode (st_w s) =? 1).
   - cbn [lg_lines]. apply map_store_line. intros l Hl.
     apply (proj2 (fold_max_ge lines 100)), Hl.
@@ -853,16 +874,19 @@ Proof.
     + apply map_store_line. intros l Hl. apply (proj2 (fold_max_ge lines 100)), Hl.
 Qed.
 
-Theorem log_history name : forall ops s, hist_ok s ops = true ->
+Theorem log_history name : forall ops s, hist_ok_log name s ops = true ->
   rd_log (st_f (run s ops)) name = spec_log name (w_mode (st_w s)) (rd_log (st_f s) name) ops.
 Proof.
   induction ops as [|o r IH]; intros s Hok; [reflexivity|].
-  rewrite run_cons. cbn [hist_ok] in Hok. apply andb_prop in Hok as [Ho Hr].
+  rewrite run_cons. unfold hist_ok_log in *. cbn [hist_ok_by] in Hok.
+  apply andb_prop in Hok as [Ho Hr].
   rewrite IH by exact Hr. rewrite mode_step.
   pose proof (logs_frame s o) as Hfr.
   destruct o; cbn [spec_log]; try (unfold rd_log; rewrite Hfr; reflexivity).
   - cbn [step fst st_f]. destruct (mode =? 2); reflexivity.
-  - rewrite (log_step s name name0 lines Ho). destruct (name0 =? name); reflexivity.
+  - assert (Ho' : name0 = name -> log_ok s name0 lines = true).
+    { intros ->. cbn [op_ok_log] in Ho. now rewrite Z.eqb_refl in Ho. }
+    rewrite (log_step s name name0 lines Ho'). destruct (name0 =? name); reflexivity.
 Qed.
 
 (* ---- tables --------------------------------------------------------------------------------------- *)
@@ -1025,7 +1049,8 @@ Definition demo_ops : list op :=
    OOpen 1; OScalar 4 false [(0, 8); (0, 16); (0, 24)]; OLog 0 [repeat 66 130]; OClose].
 
 Example c01_nonvacuous :
-  hist_ok init demo_ops = true
+  hist_ok_scalar 4 init demo_ops = true /\ hist_ok_nd F_IMAGE init demo_ops = true
+  /\ hist_ok_trace 1 init demo_ops = true /\ hist_ok_log 0 init demo_ops = true
   /\ index_ok 0 0 demo_ops = true
   /\ rd_scalar (st_f (run init demo_ops)) 4 = [(0, 8); (0, 16); (0, 24)]
   /\ rd_scalar (st_f (run init demo_ops)) F_INDEX = [(0, 8); (0, 16); (0, 24)]
@@ -1059,11 +1084,11 @@ Qed.
 Lemma NdInv_init : NdInv (st_f init).
 Proof. split; [intros k d; discriminate|exact I]. Qed.
 
-Corollary nd_history_init f ops : hist_ok init ops = true ->
+Corollary nd_history_init f ops : hist_ok_nd f init ops = true ->
   rd_nd (st_f (run init ops)) f = spec_nd f 0 [] ops.
 Proof. exact (nd_history f ops init NdInv_init). Qed.
 
-Corollary trace_history_init tr ops : hist_ok init ops = true ->
+Corollary trace_history_init tr ops : hist_ok_trace tr init ops = true ->
   rd_trace (st_f (run init ops)) tr = spec_trace tr 0 [] ops.
 Proof. exact (trace_history tr ops init NdInv_init). Qed.
 
@@ -1089,7 +1114,7 @@ Corollary index_history_init ops : index_ok 0 0 ops = true ->
   rd_scalar (st_f (run init ops)) F_INDEX = enumerate_from_1 (spec_index_len 0 0 ops).
 Proof. exact (index_history ops init 0 (conj (Z.le_refl 0) eq_refl)). Qed.
 
-Corollary log_history_init name ops : hist_ok init ops = true ->
+Corollary log_history_init name ops : hist_ok_log name init ops = true ->
   rd_log (st_f (run init ops)) name = spec_log name 0 [] ops.
 Proof. exact (log_history name ops init). Qed.
 
@@ -1182,3 +1207,50 @@ Qed.
 Corollary meta_history_init k ops : auto_key k = false ->
   rd_attr (st_f (run init ops)) k = spec_meta k None ops.
 Proof. intros Hk. exact (meta_history k Hk ops init). Qed.
+
+(* float32: 24 significant bits, ties to even (entries in units of 1/8) *)
+Example c01_f32_nonvacuous :
+  round_f32 (2 ^ 24 + 1) = 2 ^ 24 /\ round_f32 (2 ^ 24 + 3) = 2 ^ 24 + 4
+  /\ round_f32 (- (2 ^ 25 + 2)) = - 2 ^ 25 /\ round_f32 (2 ^ 25 + 6) = 2 ^ 25 + 8
+  /\ round_f32 12345 = 12345 /\ fits_nd (NDF32 8) (2 ^ 24 + 1) = false
+  /\ fits_nd (NDF32 8) (3 * 2 ^ 30) = true
+  /\ hist_ok_nd F_QPI_AMP init [OOpen 2; OArr F_QPI_AMP false [] [1; 2] (ndt_of 0) [2 ^ 24 + 1; 5]] = false
+  /\ rd_nd (st_f (run init [OOpen 2; OArr F_QPI_AMP false [] [1; 2] (ndt_of 0) [2 ^ 24 + 1; 5]])) F_QPI_AMP
+     = [[2 ^ 24; 5]].
+Proof. vm_compute. repeat split. Qed.
+
+(* ---- from what the readers return to the event count ------------------------------------------------ *)
+(* every stored feature reads back n events (the reader lengths are those of
+   spec_scalar / spec_nd / spec_contour / spec_trace by the history theorems) *)
+Definition ReadersBalanced (s : file) (n : Z) : Prop :=
+  (forall f, amem f (f_scal s) = true -> zlen (rd_scalar s f) = n)
+  /\ (forall f, amem f (f_nd s) = true -> zlen (rd_nd s f) = n)
+  /\ (f_contour s <> None -> zlen (rd_contour s) = n)
+  /\ (forall g, f_trace s = Some g ->
+        (g = [] -> n = 0)
+        /\ forall t d, In (t, d) g -> 0 <= t < Z.of_nat NTRACE /\ zlen (nd_rows d) = n).
+
+Lemma ReadersBalanced_Balanced s n : ReadersBalanced s n -> Balanced s n.
+Proof.
+  intros (HS & HN & HC & HT). split; [|exact HT].
+  intros f len Hf. unfold feat_len.
+  destruct (f =? F_CONTOUR) eqn:Ec.
+  - assert (HL : forall g, f_contour s = Some g -> zlen (rd_contour s) = zlen g).
+    { intros g Eg. unfold rd_contour, zlen, zrange. rewrite Eg.
+      now rewrite !map_length, seq_length. }
+    destruct (f_contour s) as [g|] eqn:Eg; [|discriminate]. cbn. intros [= <-].
+    rewrite <- (HL g eq_refl). apply HC. discriminate.
+  - destruct (f =? F_TRACE) eqn:Et; [lia|].
+    destruct (alookup f (f_scal s)) as [[dt v]|] eqn:El.
+    + intros [= <-]. rewrite <- (HS f) by (unfold amem; now rewrite El).
+      unfold rd_scalar. now rewrite El.
+    + destruct (alookup f (f_nd s)) as [d|] eqn:En; [|discriminate].
+      intros [= <-]. rewrite <- (HN f) by (unfold amem; now rewrite En).
+      unfold rd_nd. rewrite En. destruct (f =? F_MASK); [|reflexivity].
+      unfold zlen. now rewrite map_length.
+Qed.
+
+Theorem event_count_readers ops n :
+  ReadersBalanced (st_f (run init ops)) n -> feats_sorted (st_f (run init ops)) <> [] ->
+  rd_attr (st_f (run init (ops ++ [OClose]))) M_EVENT_COUNT = Some n.
+Proof. intros H. apply event_count_history. now apply ReadersBalanced_Balanced. Qed.
